@@ -86,6 +86,8 @@ async def check_tree(ctx, case):
     spec, asg, soll = case["spec"], case["asg"], case["soll"]
     ctx.set_case("tree", case)
     ctx.count("trees")
+    if case.get("pkg"):
+        ctx.count("trees_written_with_packages")
     if spec and "line" in spec[0]:
         ctx.count("trees_with_line_indexes")
     nodes = list(T.walk(spec))
@@ -125,7 +127,7 @@ async def check_tree(ctx, case):
         from vf import evalhelp as H
         from ahbicht.validation.validation import validate_deep_anwendungshandbuch
 
-        cer = E.make_cer(asg, {k: True for k in POOLS.fc}, {k: "Hinweis " + k for k in POOLS.hint})
+        cer = E.make_cer(asg, {k: True for k in POOLS.fc}, {k: "Hinweis " + k for k in POOLS.hint}, packages=case.get("pkg", {}))
         hout = await H.with_shipped_evaluators("hardcoded" if case["schedule_seed"] % 8 == 0 else "cer", cer, lambda: validate_deep_anwendungshandbuch(TB.build(spec), soll_is_required=soll))
         ctx.evaluation()
         ctx.count("runs_with_shipped_evaluators")
@@ -201,7 +203,7 @@ async def check_sequence(ctx, case):
     spec, asgs, soll = case["spec"], case["asgs"], case["soll"]
     ctx.set_case("sequence", case)
     ctx.count("sequences")
-    worlds = [E.World(f"c13-{i}", rc=asg, fc={k: True for k in POOLS.fc}) for i, asg in enumerate(asgs)]
+    worlds = [E.World(f"c13-{i}", rc=asg, fc={k: True for k in POOLS.fc}, pkg=case.get("pkg", {})) for i, asg in enumerate(asgs)]
     sc = sched.Sched(sched.RandomChooser(random.Random(case["schedule_seed"])))
     out = await TB.validate_sequence(spec, worlds, soll, scheduler=sc)
     if out[0] != "ok":
@@ -231,7 +233,8 @@ def gen_case(ctx, rng, p_invalid=0.0):
     spec = gen.tree()
     if rng.random() < 0.4:
         T.assign_line_indexes(spec, rng)
-    return {"spec": spec, "asg": draw_assignment(rng, POOLS.rc), "soll": rng.random() < 0.5, "schedule_seed": rng.randrange(1 << 30)}
+    pkg = T.abbreviate_spec(spec, rng) if rng.random() < 0.35 else {}
+    return {"spec": spec, "asg": draw_assignment(rng, POOLS.rc), "soll": rng.random() < 0.5, "schedule_seed": rng.randrange(1 << 30), "pkg": pkg}
 
 
 async def run(ctx):
@@ -246,7 +249,7 @@ async def run(ctx):
 
     for i in range(ctx.budget(60, 6_000)):
         case = gen_case(ctx, rng)
-        seq = {"spec": case["spec"], "asgs": [draw_assignment(rng, POOLS.rc, p_unknown_tree=0.05) for _ in range(rng.randint(2, 4))], "soll": case["soll"], "schedule_seed": case["schedule_seed"]}
+        seq = {"spec": case["spec"], "asgs": [draw_assignment(rng, POOLS.rc, p_unknown_tree=0.05) for _ in range(rng.randint(2, 4))], "soll": case["soll"], "schedule_seed": case["schedule_seed"], "pkg": case.get("pkg", {})}
         await check_sequence(ctx, seq)
 
 
